@@ -2,7 +2,7 @@
    dispatch <component> <request> : val.  Definitions only. *)
 From Verif Require Import Base.Tactics Base.ZList Base.Val.
 From Verif Require Import Base.Str.
-From Verif Require Import Model.BufReaderModel Model.RangeModel Model.IsoTimeModel.
+From Verif Require Import Model.BufReaderModel Model.RangeModel Model.IsoTimeModel Model.TimingModel.
 
 (* ---- C20 ---- request: (file off bs maxb (size?) mode ops) *)
 Definition c20_op (v : val) : op :=
@@ -83,8 +83,21 @@ Definition c19_run (v : val) : val :=
   else if mode =? 5 then VI (us_to_tc (vint (vnth 1 v)) (vint (vnth 2 v)))
   else VI (multiply_td (vint (vnth 1 v)) (vint (vnth 2 v))).
 
+(* ---- C08 ---- request: (now dom doy seg_dur timescale kind start (depth?) (mup?) (leeway?)) *)
+Definition c08_run (v : val) : val :=
+  let kind := vint (vnth 5 v) in
+  let st := if kind =? 0 then SEpoch else if kind =? 1 then SToday else if kind =? 2 then SMonth
+            else if kind =? 3 then SYear else if kind =? 4 then SNow else SExplicit (vint (vnth 6 v)) in
+  let o := {| o_start := st; o_depth := as_opt_int (vnth 7 v); o_mup := as_opt_int (vnth 8 v);
+              o_leeway := as_opt_int (vnth 9 v) |} in
+  let L := live_params (vint (vnth 0 v)) (vint (vnth 1 v)) (vint (vnth 2 v)) (vint (vnth 3 v))
+                       (vint (vnth 4 v)) o in
+  VL [VI (l_ast L); VI (l_elapsed L); VI (l_tsbd L); VI (l_fta L); vopt_int (l_mup L);
+      VI (l_publish L); VI (l_leeway L)].
+
 Definition dispatch (comp : Z) (v : val) : val :=
   if comp =? 20 then c20_run v
+  else if comp =? 8 then c08_run v
   else if comp =? 13 then c13_run v
   else if comp =? 19 then c19_run v
   else verr 999.
